@@ -94,6 +94,7 @@ def kmsg_path_ignores_silencing(ctx):
 
 
 def run(ctx):
+    pg_scan_sampling_tick(ctx, "C17")
     saved_context_is_a_copy(ctx, "C17")
     # locals / parameters the rules below refer to by name (a rename makes the analysis 'broken', never a violation)
     ctx.anchor(ctx.fn1('Oomd::BaseKillPlugin::tryToKillCgroup'), 'nrKilled', 'cgroupPath', 'killUuid', 'target')
